@@ -10,6 +10,7 @@ import traceback
 
 HERE = os.path.dirname(os.path.dirname(os.path.abspath(__file__)))
 NSHARDS = int(os.environ.get("VERIF_SHARDS", "16"))
+SLOWLOG = bool(os.environ.get("VERIF_SLOWLOG"))
 
 
 class Violation(Exception):
@@ -93,12 +94,31 @@ class _Found(Exception):
     pass
 
 
+class CaseTimeout(BaseException):
+    pass
+
+
+def _on_case_alarm(signum, frame):
+    import traceback as tb
+    raise CaseTimeout("".join(tb.format_stack(frame)[-8:]))
+
+
 def run_case(prop, case):
-    """run one case in isolation; returns Result. Unexpected exceptions propagate (harness error)."""
+    """run one case in isolation; returns Result. Unexpected exceptions propagate (harness error).
+    A case that runs longer than prop.CASE_TIMEOUT_S is reported as a violation '<ID>:case-timeout'
+    (the stack at the time of the alarm is the detail)."""
     reset_globals()
+    limit = getattr(prop, "CASE_TIMEOUT_S", 120)
+    old = signal.signal(signal.SIGALRM, _on_case_alarm)
+    signal.setitimer(signal.ITIMER_REAL, limit)
     try:
         res = prop.run(case)
+    except CaseTimeout as e:
+        res = Result()
+        res.violate("%s:case-timeout" % prop.ID, "case still running after %ds; stack:\n%s" % (limit, e))
     finally:
+        signal.setitimer(signal.ITIMER_REAL, 0)
+        signal.signal(signal.SIGALRM, old)
         reset_globals()
     return res
 
@@ -180,7 +200,11 @@ def worker_collect(args):
                 if time.time() - t0 > budget_s:
                     out["budget_hit"] = True
                     raise _Stop()
+                tc = time.time()
                 res = run_case(prop, case)
+                if SLOWLOG and time.time() - tc > 2.0:
+                    sys.stderr.write("SLOW %.1fs shard %d labels %r case %s\n" % (
+                        time.time() - tc, k, res.labels, canonical_json(case)[:3000]))
                 account(case, res, "generated")
 
             try:
@@ -204,16 +228,13 @@ def worker_shrink(args):
     prop = load(pid)
     best = {"case": None, "size": None, "detail": ""}
 
-    expired = [False]
-
-    def on_alarm(signum, frame):
-        expired[0] = True
+    deadline = time.time() + budget_s
 
     @hseed(shard_seed(seed, pid, k))
     @_hyp_settings(n, True)
     @given(prop.strategy(tier))
     def t(case):
-        if expired[0]:
+        if time.time() > deadline:
             raise _Stop()
         res = run_case(prop, case)
         for s, detail in res.violations:
@@ -223,8 +244,6 @@ def worker_shrink(args):
                     best.update(case=case, size=size, detail=detail)
                 raise _Found(sig)
 
-    old = signal.signal(signal.SIGALRM, on_alarm)
-    signal.alarm(int(budget_s))
     try:
         t()
     except _Stop:
@@ -234,9 +253,6 @@ def worker_shrink(args):
     except Exception:
         # Hypothesis re-raises the final minimal failure (as _Found) or Flaky etc.; keep best
         pass
-    finally:
-        signal.alarm(0)
-        signal.signal(signal.SIGALRM, old)
     return best
 
 
